@@ -294,6 +294,14 @@ def execute(case, ctx):
     # canonical reset: no state of the bridge may survive from an earlier
     # run of this process (module-level caches are re-created)
     importlib.reload(solvermod)
+    # the order in which solvers are tried is the order of the documented
+    # public list; the wire convention of each name is the reference copy
+    global SUPPORTED
+    listed = call(solvermod.supported_satsolvers)
+    if listed[0] == "ok" and sorted(listed[1]) == sorted(REFERENCE_ORDER):
+        SUPPORTED = list(listed[1])
+    else:
+        SUPPORTED = list(REFERENCE_ORDER)
     F = _build_formula(case)
     n = case["n"]
     clauses = [tuple(c) for c in case["clauses"]]
